@@ -59,35 +59,94 @@ func checkC13(c *fw.Ctx) {
 		c.Check(strings.Contains(s[0], "param:serverName") && s[1] == "param:keyID" && strings.HasPrefix(s[3], "encoding/json.Marshal("), "1 signed-object", "Sign signs the serialised fields under the given server name and key id", c.P.Pos(call.Pos()), "", "SignJSON("+strings.Join(s, ", ")+")")
 	}
 	// 2. reconstruction
-	wantStores := map[string]string{"Method": "*param:req.Method", "RequestURI": "(*net/url.URL).RequestURI(*param:req.URL)", "Content": "io.ReadAll(*param:req.Body)#0"}
-	for _, f := range fw.SortedKeys(wantStores) {
-		ok := false
-		var got []string
-		for _, b := range read.Blocks {
-			for _, ins := range b.Instrs {
-				if st, isSt := ins.(*ssa.Store); isSt && strings.HasSuffix(fw.Sig(st.Addr), ".fields."+f) {
-					got = append(got, fw.Sig(st.Val))
-					if fw.Sig(st.Val) == wantStores[f] {
-						ok = true
-					} else {
-						ok = false
-					}
-				}
-			}
+	// (the stores may sit in unexported helpers of readHTTPRequest: they are looked up in its
+	// region and their values traced through the frames)
+	isFieldsStore := func(st *ssa.Store, f string) bool {
+		fa, ok := st.Addr.(*ssa.FieldAddr)
+		if !ok {
+			return false
 		}
-		c.Check(ok && len(got) == 1, "2 reconstruction", "the verified "+f+" is the transmitted one ("+wantStores[f]+")", c.P.Pos(read.Pos()), "", fmt.Sprintf("field %s is reconstructed from %v: what is verified differs from what was signed for some requests (e.g. percent-escapes in the path)", f, got))
+		sty := derefStructOf(fa.X.Type())
+		if sty == nil || sty.Field(fa.Field).Name() != f {
+			return false
+		}
+		has := map[string]bool{}
+		for i := 0; i < sty.NumFields(); i++ {
+			has[sty.Field(i).Name()] = true
+		}
+		return has["RequestURI"] && has["Signatures"] && has["Origin"]
 	}
-	for f, idx := range map[string]string{"Origin": "#1", "Destination": "#2"} {
-		ok := false
-		for _, b := range read.Blocks {
-			for _, ins := range b.Instrs {
-				if st, isSt := ins.(*ssa.Store); isSt && strings.HasSuffix(fw.Sig(st.Addr), ".fields."+f) {
-					vs := fw.Sig(resolveLocalField(st.Val))
-					ok = strings.HasPrefix(vs, "gmsl/fclient.ParseAuthorization(") && strings.HasSuffix(vs, idx)
+	isReqFieldLoad := func(field string) func(ssa.Value) bool {
+		return func(v ssa.Value) bool {
+			u, ok := v.(*ssa.UnOp)
+			if !ok || u.Op != token.MUL {
+				return false
+			}
+			fa, ok := u.X.(*ssa.FieldAddr)
+			if !ok {
+				return false
+			}
+			sty := derefStructOf(fa.X.Type())
+			return sty != nil && sty.Field(fa.Field).Name() == field && strings.HasSuffix(fw.Short(strings.TrimPrefix(fa.X.Type().String(), "*")), "net/http.Request")
+		}
+	}
+	deepRead := fw.DeepInstrs(read, nil)
+	type recon struct {
+		what string
+		src  func(ssa.Value) bool
+	}
+	wantStores := map[string]recon{
+		"Method":     {"*req.Method", isReqFieldLoad("Method")},
+		"RequestURI": {"req.URL.RequestURI()", fw.IsResultOf(fw.NameIs("(*net/url.URL).RequestURI"), -1)},
+		"Content":    {"io.ReadAll(req.Body)", fw.IsResultOf(fw.NameIs("io.ReadAll"), 0)},
+	}
+	for _, f := range fw.SortedKeys(wantStores) {
+		n := 0
+		construct := "the verified " + f + " is the transmitted one (" + wantStores[f].what + ")"
+		for _, di := range deepRead {
+			st, isSt := di.Instr.(*ssa.Store)
+			if !isSt || !isFieldsStore(st, f) {
+				continue
+			}
+			n++
+			c.CheckDerives(st.Val, di.Fr, fw.FlowSpec{IsSource: wantStores[f].src, All: true}, "2 reconstruction", construct, c.P.Pos(fw.InstrPos(st)), "",
+				fmt.Sprintf("field %s is reconstructed from %s: what is verified differs from what was signed for some requests (e.g. percent-escapes in the path)", f, fw.SigIn(di.Fr, st.Val)))
+		}
+		if n == 0 {
+			c.Undecided("2 reconstruction", construct, "no store to fields."+f+" found in the region of readHTTPRequest")
+		}
+	}
+	for f, idx := range map[string]int{"Origin": 1, "Destination": 2} {
+		n := 0
+		construct := "the verified " + f + " comes from the X-Matrix header"
+		for _, di := range deepRead {
+			st, isSt := di.Instr.(*ssa.Store)
+			if !isSt || !isFieldsStore(st, f) {
+				continue
+			}
+			n++
+			val := resolveLocalField(st.Val)
+			pa := fw.NameIs("gmsl/fclient.ParseAuthorization")
+			if fw.Derives3In(val, di.Fr, fw.FlowSpec{IsSource: fw.IsResultOf(pa, idx), All: true}) == fw.Yes {
+				c.Ok("2 reconstruction", construct, c.P.Pos(fw.InstrPos(st)), fw.SigIn(di.Fr, val))
+				continue
+			}
+			// positive evidence only: the value is another member of the parsed header
+			wrong := ""
+			for other := 0; other < 5; other++ {
+				if other != idx && fw.Derives3In(val, di.Fr, fw.FlowSpec{IsSource: fw.IsResultOf(pa, other), All: true}) == fw.Yes {
+					wrong = fmt.Sprintf("result #%d of ParseAuthorization", other)
 				}
 			}
+			if wrong != "" {
+				c.Fail("2 reconstruction", construct, c.P.Pos(fw.InstrPos(st)), f+" is taken from "+wrong+", not from the header's "+strings.ToLower(f))
+			} else {
+				c.Undecided("2 reconstruction", construct, f+" is stored from "+fw.SigIn(di.Fr, val)+", whose origin in the header was not traced")
+			}
 		}
-		c.Check(ok, "2 reconstruction", "the verified "+f+" comes from the X-Matrix header", c.P.Pos(read.Pos()), "", f+" is not taken from ParseAuthorization")
+		if n == 0 {
+			c.Undecided("2 reconstruction", construct, "no store to fields."+f+" found in the region of readHTTPRequest")
+		}
 	}
 	// content admission
 	for _, b := range read.Blocks {
